@@ -951,15 +951,8 @@ impl PersistOrderOracle {
 						None => continue,
 					};
 					let key = (*from, ci);
-					let outs = self.outstanding.get(&key).cloned().unwrap_or_default();
 					match wire {
 						Wire::Commit(_) => {
-							if !outs.is_empty() {
-								return Err(Self::fail(
-									"freeze-while-outstanding",
-									format!("node {} sent commitment_signed on chan {} while monitor updates {:?} are outstanding", from, ci, outs),
-								));
-							}
 							if let Some(m) = self.last_signed_cp.get(&key) {
 								match self.cp_commit_update.get(&(*from, ci, *m)) {
 									Some(uid) => {
@@ -980,12 +973,6 @@ impl PersistOrderOracle {
 							crate::runner::witness("c09-commitment-signed-checked");
 						},
 						Wire::Raa(_) => {
-							if !outs.is_empty() {
-								return Err(Self::fail(
-									"freeze-while-outstanding",
-									format!("node {} sent revoke_and_ack on chan {} while monitor updates {:?} are outstanding", from, ci, outs),
-								));
-							}
 							if let Some(idx) = self.last_released.get(&key) {
 								match self.holder_commit_update.get(&(*from, ci, idx - 1)) {
 									Some(uid) => {
@@ -1174,6 +1161,9 @@ pub struct ForwardOracle {
 	/// every commitment transaction of the downstream channel ever signed (by either side):
 	/// txid -> (hash, output index) of its non-dust HTLCs
 	down_commit_txs: BTreeMap<bitcoin::Txid, Vec<([u8; 32], Option<u32>)>>,
+	/// upstream monitor: update id carrying the PaymentPreimage step per payment hash, and ids in flight
+	up_preimage_update: BTreeMap<[u8; 32], u64>,
+	up_outstanding: Vec<u64>,
 }
 
 impl ForwardOracle {
@@ -1197,6 +1187,8 @@ impl ForwardOracle {
 			keys: BTreeMap::new(),
 			closed_any: false,
 			down_commit_txs: BTreeMap::new(),
+			up_preimage_update: BTreeMap::new(),
+			up_outstanding: Vec::new(),
 		};
 		let setup: Vec<Obs> = w.obs.clone();
 		let _ = o.scan(w, &setup);
@@ -1287,11 +1279,62 @@ impl ForwardOracle {
 						self.signed_down.push((info.number, hashes));
 					}
 				},
+				Obs::Persist { node, rec } if *node == self.fwd && rec.chan == up_cid => {
+					if rec.in_progress {
+						if let Some(uid) = rec.update_id {
+							self.up_outstanding.push(uid);
+						}
+					}
+					for st in rec.steps.iter() {
+						if st.name == "PaymentPreimage" {
+							if let (Some(p), Some(uid)) = (st.preimage, rec.update_id) {
+								use bitcoin::hashes::Hash;
+								let h = bitcoin::hashes::sha256::Hash::hash(&p).to_byte_array();
+								self.up_preimage_update.entry(h).or_insert(uid);
+							}
+						}
+					}
+				},
+				Obs::Completed { node, chan, id } if *node == self.fwd && *chan == up_cid => {
+					self.up_outstanding.retain(|x| x != id);
+				},
+				Obs::Restarted { node, .. } if *node == self.fwd => {
+					self.up_outstanding.clear();
+				},
 				Obs::Persist { node, rec } if *node == self.fwd && rec.chan == down_cid => {
 					for st in rec.steps.iter() {
 						if st.name == "CommitmentSecret" {
 							if let Some(idx) = st.number {
 								self.down_revoked_from = self.down_revoked_from.min(idx);
+								// Does this revocation make the removal of a *claimed* HTLC irrevocable (no unrevoked
+								// downstream commitment holds it any more)? Then the downstream monitor is about to
+								// forget the HTLC, so the upstream monitor must already durably hold the preimage.
+								let learned: Vec<[u8; 32]> = self.preimage_learned.keys().cloned().collect();
+								for h in learned {
+									let held: Vec<u64> = self.signed_down.iter().filter(|(_, hs)| hs.contains(&h)).map(|(n, _)| *n).collect();
+									if held.is_empty() || held.iter().any(|n| *n < idx) {
+										continue; // still in an unrevoked commitment (or never non-dust)
+									}
+									if held.iter().all(|n| *n > idx) {
+										continue; // became irrevocable at an earlier revocation, judged then
+									}
+									match self.up_preimage_update.get(&h) {
+										None => {
+											return Err(Self::fail(
+												"the downstream revocation that makes a claimed HTLC's removal irrevocable was handed to Persist before the upstream monitor was given the preimage".into(),
+											))
+										},
+										Some(uid) => {
+											if self.up_outstanding.iter().any(|x| x <= uid) {
+												return Err(Self::fail(format!(
+													"the downstream revocation that makes a claimed HTLC's removal irrevocable was handed to Persist while the upstream preimage update {} is still in flight",
+													uid
+												)));
+											}
+											crate::runner::witness("c02-raa-update-after-durable-preimage");
+										},
+									}
+								}
 							}
 						}
 					}
@@ -1374,7 +1417,15 @@ impl Oracle for ForwardOracle {
 		let mut label = format!("fwd{}", self.forwarded_events.len());
 		if !self.closed_any && pending == 0 && nchan == 2 {
 			let earned: u64 = self.fulfilled_up.len() as u64 * self.fee_base_msat;
-			if after != self.funds_before + earned {
+			// payments the forwarder itself received / sent are not forwards
+			let received: u64 = w.payments.iter().filter(|p| p.to == self.fwd && p.claimed_by_recipient).map(|p| p.amount_msat).sum();
+			let sent: u64 = w
+				.payments
+				.iter()
+				.filter(|p| p.from == self.fwd && p.claimed_by_recipient)
+				.map(|p| p.amount_msat)
+				.sum();
+			if after + sent != self.funds_before + earned + received {
 				return Err(Self::fail(format!(
 					"forwarder funds {} msat after vs {} before + {} fees earned",
 					after, self.funds_before, earned
